@@ -135,7 +135,9 @@ def c07_worker(args, scratch):
     res = {"evaluations": 0, "nontrivial": [], "samples": [], "counts": {}, "violations": []}
     cnt = res["counts"]
     r = common.rng("c07-kernel", args["tier"])
-    k = realbpf.Kernel(scratch, runtime="multi:8")
+    # hook H3: the redirector's state actor sometimes takes 0-4 ms to answer (lookup and removal both go through it): consumption that is not
+    # finished when the accept path hands the connection on stays observable for that long
+    k = realbpf.Kernel(scratch, runtime="multi:8", env={"GPA_VERIF_DELAY": "actor_redirector:400:4000", "GPA_VERIF_DELAY_SEED": "7"})
     if k.unavailable or "err" in getattr(k, "attach", {}):
         cnt["kernel_section_skipped"] = 1
         res["skip_reason"] = k.unavailable or k.attach.get("err")
@@ -204,6 +206,27 @@ def c07_worker(args, scratch):
                 viol("kernel:reused-port-without-record-not-refused", {"ports": bad[:8]})
             cnt["kernel_port_reuses"] = cnt.get("kernel_port_reuses", 0) + nconn
             res["nontrivial"].append(common.sha(["kernel-burst", nconn, rnd]))
+        # immediate reuse: the port of a served connection is reused (no fresh record) as soon as its response has arrived
+        bad = []
+        for i in range(args.get("immediate_reuses", 60)):
+            try:
+                c = open_conn(record=True)
+                pnum = c.src_port
+                st1 = exchange(c, "imm-%d-a" % i)
+                c.close(abort=True)
+                c2 = open_conn(record=False, src_port=pnum)
+                vid = "imm-%d-b" % i
+                st2 = exchange(c2, vid)
+                c2.close(abort=True)
+                with lock:
+                    res["evaluations"] += 1
+                if st1 == 200 and (st2 != 421 or any((u.header("x-vf-id") or b"").decode() == vid for u in k.mocks["imds"].snapshot())):
+                    bad.append((pnum, st2))
+            except OSError:
+                cnt["port_reuse_bind_failed"] = cnt.get("port_reuse_bind_failed", 0) + 1
+        cnt["kernel_immediate_port_reuses"] = cnt.get("kernel_immediate_port_reuses", 0) + args.get("immediate_reuses", 60)
+        if bad:
+            viol("kernel:reused-port-without-record-not-refused", {"ports": bad[:8], "history": "port reused right after the first connection's response arrived (actor delay points on)"})
         res["samples"].append({"history": "16-48 connections accepted concurrently through real kernel maps, each port then reused without a record", "rounds": args["rounds"]})
         for pn in k.shim.panics():
             viol("panic:%s" % pn.get("location"), pn)
